@@ -59,8 +59,7 @@ class TLCResult:
             self.violated.append("<temporal>")
         if "Deadlock reached" in out:
             self.violated.append("<deadlock>")
-        self.postcond_failed = "The postcondition" in out and "is violated" in out or \
-            bool(re.search(r"Postcondition .* (was|is) violated|postcondition .* violated", out, re.I))
+        self.postcond_failed = bool(re.search(r"Postcondition \S+ .*is false", out))
         self.error = None
         m = re.search(r"^Error: (.*)$", out, re.M)
         if m and not self.violated and not self.postcond_failed:
